@@ -785,6 +785,16 @@ def job_pf(cfg):
         Ku = simu.Get_K_C_M_F(PT.elastic)[0]
         Kd = simu.Get_K_C_M_F(PT.damage)[0]
         Cmat = np.asarray(simu.phaseFieldModel.material.C, dtype=float)
+        # reactions of the displacement problem of a two-field simulation (its default problem is the damage one): every second elastic dof, high indices included
+        n_el = mesh.Nn * dim
+        dofs_sel = np.arange(n_el)[::-2].copy()
+        try:
+            R_sel = np.asarray(simu.Calc_Reaction(dofs_sel.copy(), PT.elastic), dtype=object).reshape(-1)
+            R_all = np.asarray(simu.Calc_Reaction(None, PT.elastic), dtype=object).reshape(-1)
+            R_fail = None
+        except Exception as e:
+            R_sel = R_all = None
+            R_fail = f"{type(e).__name__}: {e}"[:160]
     pcs = c.pc_since(mark)
     res.paths, res.path_conditions = 1, len(pcs)
     dense = lambda M: np.asarray(M.a if isinstance(M, facade.SymMatrix) else M.toarray(), dtype=object)
@@ -886,6 +896,46 @@ def job_pf(cfg):
         cmp(res, lab, val, want, pcs, make_replay(name, nv), TOL * scale * (n if kind == "scalar" else 1), key=f"{key}: {fams[kind]}")
     for (name, nv), msg in failed.items():
         res.record(f"{key} Result('{name}', nodeValues={nv}) returns a value", Outcome("cex", env={}, how="structure", detail=msg), make_replay(name, nv), key=f"{key}: advertised result raises")
+    # Calc_Reaction(dofs, elastic) = (K_u(d) u)[dofs]  (no damping / inertia in the quasi-static displacement problem)
+    def replay_reaction(env):
+        uf, df = farr(c, env, u), farr(c, env, d)
+        m2, s2 = build()
+        s2._Set_solutions(s2.ProblemTypes.elastic, uf.copy())
+        s2._Set_solutions(s2.ProblemTypes.damage, df.copy())
+        s2.Need_Update()
+        Kf = np.asarray(s2.Get_K_C_M_F(s2.ProblemTypes.elastic)[0].toarray(), dtype=float)
+        want = Kf @ uf
+        try:
+            r1 = np.asarray(s2.Calc_Reaction(dofs_sel.copy(), s2.ProblemTypes.elastic), dtype=float).reshape(-1)
+            r2 = np.asarray(s2.Calc_Reaction(None, s2.ProblemTypes.elastic), dtype=float).reshape(-1)
+        except Exception as e:
+            return True, {"Calc_Reaction raises": f"{type(e).__name__}: {e}"[:160]}
+        info = {"values_returned_for_selection": int(r1.size), "dofs_selected": int(dofs_sel.size), "values_returned_for_all_dofs": int(r2.size), "elastic_dofs": int(n_el)}
+        if r1.size != dofs_sel.size or r2.size != n_el:
+            return True, info
+        sc = max(1.0, float(np.abs(want).max()))
+        info["max_difference_selection"] = float(np.abs(r1 - want[dofs_sel]).max() / sc)
+        info["max_difference_all"] = float(np.abs(r2 - want).max() / sc)
+        return max(info["max_difference_selection"], info["max_difference_all"]) > 1e-8, info
+
+    if R_fail is not None or R_sel is None or R_sel.size != dofs_sel.size or R_all.size != n_el:
+        res.record(f"{key} Calc_Reaction(dofs, elastic) returns one value per requested dof", Outcome("cex", env=dict(c.shadow), how="structure", detail=str(R_fail)), replay_reaction, key=f"{key}: reactions of the displacement problem")
+    else:
+        KuU = facade._matmul(dense(Ku), np.asarray(u, dtype=object))
+        worst = None
+        for i, dd in enumerate(dofs_sel):
+            o = prove_abs_le(as_sym(R_sel[i]) - as_sym(KuU[dd]), TOL * scale, pcs, key)
+            if o.status != "held":
+                worst = o
+                break
+        for dd in range(n_el):
+            if worst is not None:
+                break
+            o = prove_abs_le(as_sym(R_all[dd]) - as_sym(KuU[dd]), TOL * scale, pcs, key)
+            if o.status != "held":
+                worst = o
+        res.record(f"{key} Calc_Reaction(dofs, elastic) = (K_u(d) u)[dofs]", worst or Outcome("held", how="exact"), replay_reaction, key=f"{key}: reactions of the displacement problem",
+                   sample={"obligation": "for all u, d: Calc_Reaction(every second elastic dof, 'elastic') and Calc_Reaction(None, 'elastic') equal the rows of K_u(d) u", "dofs": int(dofs_sel.size)})
     o = prove_abs_le(as_sym(np.asarray(got[("Exx", False)], dtype=object)[0]) * 2 - Em[0, 0] - 1, TOL, pcs, "twin")
     res.twin(f"{key} twin", o.status == "cex")
     res.stubs |= facade.USED_STUBS
